@@ -325,6 +325,10 @@ func c20Place(n c20Nil, pos string) ap.Item {
 		return &ap.Actor{ID: "https://example.com/actors/jdoe", Type: ap.PersonType, Inbox: n.it, Outbox: n.it, Liked: n.it, Following: n.it, Followers: n.it, Likes: n.it, Shares: n.it, Replies: n.it}
 	case "list1":
 		return ap.ItemCollection{n.it}
+	case "list-ptr":
+		// the same list handed over through a pointer (what ToItemCollection and the On* helpers themselves hand out)
+		l := ap.ItemCollection{ap.IRI("https://example.com/first"), n.it, c20Real()}
+		return &l
 	case "list-after-object":
 		// behind an embedded object and behind a link: helpers that walk a list through a typed view stop at the first member they cannot
 		// view (an IRI in front hides what comes after it)
@@ -385,7 +389,7 @@ func c20Cells() []c20Cell {
 		positions := append([]string{}, h.positions...)
 		for _, p := range h.positions {
 			if p == "list" {
-				positions = append(positions, "list1", "list-after-object", "list-after-link")
+				positions = append(positions, "list1", "list-after-object", "list-after-link", "list-ptr")
 			}
 			if p == "prop" {
 				positions = append(positions, "prop-list1")
